@@ -554,6 +554,104 @@ async fn s_facts(c: Arc<Certs>) -> Out {
     out
 }
 
+/// S6: real h3 server + real adapter + real Quinn. The peer asks to stop sending on one request; the handler
+/// notices the failed send_data and finishes the stream anyway (finish() writes h3's grease frame). The condition
+/// is stream-scoped: the connection must stay usable and a second request must complete.
+async fn s_stop_then_finish(c: Arc<Certs>, grease: bool) -> Out {
+    let mut out = Out::default();
+    out.runs += 1;
+    let p = pair(&c, Win { stream: None, conn: None, idle_ms: None }).await;
+    // the h3 endpoint is the quinn *server*; the scripted peer is the raw quinn client
+    let mut b = h3::server::builder();
+    b.send_grease(grease);
+    let raw = p.client.clone();
+    const REQ: &[u8] = &[0x01, 0x08, 0x00, 0x00, 0xd1, 0xd7, 0xc1, 0x50, 0x01, b'a'];
+    let peer = tokio::spawn(async move {
+        let mut ctrl = raw.open_uni().await.expect("ctrl");
+        ctrl.write_all(&[0x00, 0x04, 0x00]).await.expect("settings");
+        let (mut s0, mut r0) = raw.open_bi().await.expect("bi 0");
+        s0.write_all(REQ).await.expect("req 0");
+        s0.finish().unwrap();
+        // wait for the first response bytes, then ask the server to stop
+        let mut one = [0u8; 1];
+        let _ = r0.read(&mut one).await;
+        r0.stop(VarInt::from_u32(0x10c)).expect("stop");
+        tokio::time::sleep(Duration::from_millis(150)).await;
+        // a second request on the same connection
+        let second = async {
+            let (mut s4, mut r4) = raw.open_bi().await.map_err(|e| format!("open: {e}"))?;
+            s4.write_all(REQ).await.map_err(|e| format!("write: {e}"))?;
+            s4.finish().map_err(|e| format!("finish: {e}"))?;
+            let body = r4.read_to_end(1 << 20).await.map_err(|e| format!("read: {e}"))?;
+            Ok::<usize, String>(body.len())
+        }
+        .await;
+        let reason = raw.close_reason();
+        (second, reason, ctrl)
+    });
+    let conn = h3_quinn::Connection::new(p.server.clone());
+    let mut h3c: h3::server::Connection<h3_quinn::Connection, Bytes> = b.build(conn).await.expect("h3 server setup");
+    let mut first = String::new();
+    let mut driver_end = String::new();
+    let mut n = 0;
+    loop {
+        match tokio::time::timeout(Duration::from_millis(1500), h3c.accept()).await {
+            Ok(Ok(Some(resolver))) => {
+                n += 1;
+                let is_first = n == 1;
+                let r = async {
+                    let (_req, mut st) = resolver.resolve_request().await?;
+                    st.send_response(http::Response::builder().status(200).body(()).unwrap()).await?;
+                    if is_first {
+                        let mut err = None;
+                        for _ in 0..2000 {
+                            if let Err(e) = st.send_data(Bytes::from(vec![7u8; 1024])).await {
+                                err = Some(e);
+                                break;
+                            }
+                            tokio::time::sleep(Duration::from_millis(1)).await;
+                        }
+                        let fin = st.finish().await;
+                        return Ok::<String, h3::error::StreamError>(format!("send_data: {:?}; then finish(): {:?}", err.map(|e| e.to_string()), fin.map_err(|e| e.to_string())));
+                    }
+                    st.send_data(Bytes::from_static(b"pong")).await?;
+                    st.finish().await?;
+                    Ok("ok".to_string())
+                }
+                .await;
+                if is_first {
+                    first = match r {
+                        Ok(s) => s,
+                        Err(e) => format!("error: {e}"),
+                    };
+                }
+            }
+            Ok(Ok(None)) => {
+                driver_end = "none".into();
+                break;
+            }
+            Ok(Err(e)) => {
+                driver_end = format!("{e}");
+                break;
+            }
+            Err(_) => break, // idle: the peer is done
+        }
+        if n >= 2 {
+            break;
+        }
+    }
+    let (second, reason, _ctrl) = peer.await.expect("peer task");
+    let ok = matches!(second, Ok(k) if k > 0) && reason.is_none() && driver_end.is_empty();
+    if !ok {
+        out.viol(
+            "C17:real:stop-sending-then-one-more-write-kills-the-connection",
+            format!("grease={grease}: first request: {first}; accept() ended with {driver_end:?}; the peer's second request: {second:?}; connection close reason seen by the peer: {reason:?}"),
+        );
+    }
+    p.client.close(VarInt::from_u32(0), b"done");
+    out
+}
+
 async fn run_all(thorough: bool) -> Out {
     let c = Arc::new(certs());
     let mut out = Out::default();
@@ -610,6 +708,9 @@ async fn run_all(thorough: bool) -> Out {
     }
     for code in [h3::error::Code::H3_NO_ERROR, h3::error::Code::H3_FRAME_UNEXPECTED] {
         guarded(&mut out, format!("close({:#x})", code.value()), s_close(c.clone(), code)).await;
+    }
+    for grease in [true, false] {
+        guarded(&mut out, format!("h3 server: STOP_SENDING then finish(), grease={grease}"), s_stop_then_finish(c.clone(), grease)).await;
     }
     out.scenarios = vec![json!({"windows": windows.iter().map(|w| format!("{:?}/{:?}", w.stream, w.conn)).collect::<Vec<_>>(), "frame_sequences": small, "codes": codes.iter().map(|c| format!("{c:#x}")).collect::<Vec<_>>()})];
     out
